@@ -114,3 +114,9 @@ PROPS['C05'] = A(level='model_checking', engine='sched', harnesses=SCHED('harnes
              thorough='<=4 preemptions; H1 with all interleavings; three allocators; two classes'),
     technique='stateless model checking: exhaustive preemption-bounded enumeration of thread schedules of the real slab_pool under a serialising scheduler, oracles on every schedule, ThreadSanitizer over the same schedules',
     assumptions=TRUST + ['plain memory accesses are not scheduling points; data-race freedom is checked separately by ThreadSanitizer on every explored schedule', 'interleaving semantics'])
+
+PROPS['C10'] = A(level='model_checking', engine='sched', harnesses=SCHED('harness/c10_radix_mt.cpp'), budget=A(quick=170, thorough=1700),
+    bounds=A(quick='rcu_radixtree with std::atomic swapped for a scheduling-point atomic: 5 scripts of one writer (2-3 insert/erase ops covering first insert, root split, split below an inner node, second key in a leaf, erase, re-insert) and one reader (2 finds), every atomic load/store a scheduling point, all schedules with <=2 preemptions; vector-clock check that the value construction happens-before the reader; same schedules under ThreadSanitizer',
+             thorough='<=3 preemptions, two readers, 5-op writer, single insert vs find with all interleavings'),
+    technique='stateless model checking: exhaustive preemption-bounded enumeration of schedules at atomic-access granularity on the real rcu_radixtree, linearisation oracle on the recorded call/return history, vector-clock happens-before oracle, ThreadSanitizer over the same schedules',
+    assumptions=TRUST + ['interleaving semantics; ordering defects are detected as missing happens-before edges (vector clocks, TSan)'])
